@@ -95,7 +95,9 @@ Record conn_case := {
   k_used : bool;                   (* the registration's timeout entry says "used" afterwards *)
   k_cmp_relay : bool;              (* min / prefix: compare the bytes the covert side received *)
   k_late : bspec;                  (* sent on the live connection after the first flight *)
-  k_echo : bspec                   (* received by the covert echo server *)
+  k_echo : bspec;                  (* received by the covert echo server *)
+  k_replay : option (N * N)        (* length and hash of the first non-empty Read the relay made on the
+                                      connection it was handed (the buffered-replay step) *)
 }.
 
 Definition hyps_limit : nat := 400.
@@ -130,6 +132,15 @@ Section WithTable.
         (if k_cmp_relay k
          then bspec_matches (k_echo k)
                 (relay_stream c buf rest ++ skipn (sum_sizes (k_reads k)) stream ++ bspec_val (k_late k))
+         else true) &&
+        (* the buffered-replay step: if bytes were read with the tag and not consumed, the relay's
+           first Read returns exactly them (PrefixConn = io.MultiReader(buffer, live connection)) *)
+        (if k_cmp_relay k
+         then match skipn c buf, k_replay k with
+              | [], _ => true
+              | rp, Some (len, h) => bspec_matches (Dig len h) rp
+              | _, None => false
+              end
          else true) &&
         (* the hypotheses of C04_segmentation_invariance, decided on this genuine flight: the theorem
            applies to it, for every segmentation and not only the one that was run *)
